@@ -111,13 +111,28 @@ pub fn generate(em: &mut Emitter, seed: u64, thorough: bool) {
     let mut divstats = [0u64; 3];
     let limbs: [u64; 7] = [0, 1, 2, 0xFFFF_FFFF, 0xFFFF_FFFE, 0x8000_0000, 0x1234_5678];
     let nd = if thorough { 4000 } else { 400 };
-    for _ in 0..nd {
+    // directed operand pairs: small dividends against divisors around 2^63 and 2^64 (the sum
+    // q*b + r can then reach 2^64 with q*b < 2^64 and r < b), equal operands, divisor 1
+    let mut directed: Vec<(u64, u64)> = Vec::new();
+    for a in [0u64, 1, 2, 3, 0xFFFF_FFFF, 1 << 32, (1 << 32) + 5, 1 << 62, u64::MAX] {
+        for b in [1u64, 2, (1 << 63) - 1, 1 << 63, (1 << 63) + 1, u64::MAX - 1, u64::MAX, 0xFFFF_FFFF_0000_0001, (1 << 62) + 1, 0x8000_0000_FFFF_FFFF] {
+            directed.push((a, b));
+        }
+    }
+    for case in 0..(nd + directed.len()) {
         let pick = |rng: &mut Rng| if rng.chance(2, 3) { limbs[rng.below(7) as usize] } else { rng.below(1 << 32) };
-        let (mut ah, mut al, bh, bl) = (pick(&mut rng), pick(&mut rng), pick(&mut rng), pick(&mut rng));
+        let (mut ah, mut al, mut bh, mut bl) = (pick(&mut rng), pick(&mut rng), pick(&mut rng), pick(&mut rng));
+        if case < directed.len() {
+            let (a, b) = directed[case];
+            ah = a >> 32;
+            al = a & 0xFFFF_FFFF;
+            bh = b >> 32;
+            bl = b & 0xFFFF_FFFF;
+        }
         let b = (bh << 32) | bl;
         // every fourth case: the divisor divides the dividend exactly (remainder 0 is the boundary of
         // the remainder-range check)
-        if rng.chance(1, 4) && b != 0 {
+        if case >= directed.len() && rng.chance(1, 4) && b != 0 {
             let k = if rng.chance(1, 2) { rng.below(5) } else { rng.below(u64::MAX / b + 1) };
             let a0 = b.saturating_mul(k);
             ah = a0 >> 32;
@@ -148,6 +163,18 @@ pub fn generate(em: &mut Emitter, seed: u64, thorough: bool) {
                     }
                 }
                 consistent.push((0, a));
+                // consistent modulo 2^64 with a remainder in range: q' * b + r' = a + 2^64, r' < b
+                // (q' * b itself stays below 2^64 when r' > a)
+                for k in 1..=2u128 {
+                    let t = a as u128 + (k << 64);
+                    let (q2, r2) = (t / b as u128, t % b as u128);
+                    if q2 < (1u128 << 64) {
+                        consistent.push((q2 as u64, r2 as u64));
+                        if q2 > 0 && r2 + (b as u128) < (1u128 << 64) {
+                            consistent.push((q2 as u64 - 1, (r2 + b as u128) as u64));
+                        }
+                    }
+                }
                 consistent.push((q.wrapping_add(1), r.wrapping_sub(b)));
                 consistent.push((q, r.wrapping_add(b)));
                 consistent.push((q.wrapping_sub(1), r));
